@@ -68,6 +68,7 @@ func Main(v int) string {
     leaf bin { type binary; }
     leaf-list nums { type int32; }
     leaf-list words { type string; ordered-by user; }
+    leaf-list dtags { type string; default "alpha"; default "beta"; default "gamma"; }
     anydata blob;
     uses deep;
     container opt { presence "set"; leaf x { type int32; must ". < 1000" { error-message "too big"; } } }
@@ -458,6 +459,30 @@ func Use(m *meta.Module, fcYang *meta.Module, w int) string {
 	}
 	js, err = nodeutil.WriteJSON(b.Root())
 	say("final", js, err)
+	// what a data tree is given as the default of a leaf-list is the tree's own: the task writes into it
+	{
+		own := map[string]interface{}{}
+		ob := node.NewBrowser(m, nodeutil.ReflectChild(own))
+		if src, err := nodeutil.ReadJSON(`{"sys":{"name":"own"}}`); err == nil {
+			say("defaults-upsert", "ok", ob.Root().UpsertFromSetDefaults(src))
+		}
+		if v, err := ob.Root().GetValue("sys/dtags"); err == nil && v != nil {
+			say("defaults-read", fmt.Sprint(v.Value()), nil)
+			if l, ok := v.Value().([]string); ok && len(l) > 0 {
+				l[0] = fmt.Sprintf("task-%d", w)
+				_ = append(l, fmt.Sprintf("more-%d", w))
+			}
+		}
+		if sys, ok := own["sys"].(map[string]interface{}); ok {
+			if l, ok := sys["dtags"].([]string); ok && len(l) > 0 {
+				l[len(l)-1] = fmt.Sprintf("stored-%d", w)
+				sys["dtags"] = append(l, fmt.Sprintf("stored-more-%d", w))
+			}
+		}
+		if v, err := ob.Root().GetValue("sys/dtags"); err == nil && v != nil {
+			say("defaults-after", fmt.Sprint(len(v.Value().([]string))), nil)
+		}
+	}
 	// values through the conversion layer
 	for _, p := range []string{"sys/load", "sys/lvl", "sys/ratio", "sys/un", "item/w"} {
 		d := meta.Find(m, p)
